@@ -58,7 +58,13 @@ func NewBackend(kind, dir string, sids []quickfix.SessionID, repo string) (*Back
 			}
 		}
 		b.factory = filestore.NewStoreFactory(st)
-	case "sqlite":
+	case "sqlite", "sqlitebusy":
+		// "sqlitebusy" (concurrent senders, C02) waits for the lock; "sqlite" fails fast, so that a connection
+		// left holding a lock shows as an error of the next write instead of a stall
+		busy := "300"
+		if kind == "sqlitebusy" {
+			busy = "20000"
+		}
 		dbp := filepath.Join(dir, "store.db")
 		db, err := sql.Open("sqlite3", dbp)
 		if err != nil {
@@ -76,7 +82,7 @@ func NewBackend(kind, dir string, sids []quickfix.SessionID, repo string) (*Back
 		db.Close()
 		st := quickfix.NewSettings()
 		st.GlobalSettings().Set(config.SQLStoreDriver, "sqlite3")
-		st.GlobalSettings().Set(config.SQLStoreDataSourceName, "file:"+dbp+"?_busy_timeout=20000")
+		st.GlobalSettings().Set(config.SQLStoreDataSourceName, "file:"+dbp+"?_busy_timeout="+busy)
 		for _, id := range sids {
 			ss := quickfix.NewSessionSettings()
 			ss.Set(config.BeginString, id.BeginString)
